@@ -2,11 +2,11 @@ SPECIFICATION Spec
 CONSTANTS
   MaxN = 3
   Jobs = {2}
-  Kinds = {"float", "none", "numstr", "list_ok"}
+  Kinds = {"float", "none"}
   WithPre = FALSE
   RepKinds = {"pruned"}
   Misbehave = TRUE
-  AskMisbehave = TRUE
+  AskMisbehave = FALSE
   Swallow = FALSE
 INVARIANT Inv
 PROPERTY TellNeverAltersFinished
